@@ -6,8 +6,9 @@ import Uquic.Proofs.WireMoreTP2
 set_option linter.unusedSimpArgs false
 set_option linter.unusedVariables false
 
-namespace Uquic.Proofs.Wire
-open Uquic.Model.Wire Uquic.Model.Wire.Varint Uquic.Model.Wire.TP
+namespace Uquic.Proofs.WireMore
+open Uquic.Proofs.Wire
+open Uquic.Model.Wire Uquic.Model.Wire.Varint Uquic.Model.Wire.TP Uquic.Model.Wire.TP.RT
 
 /-! ### `itemsBytes` / `itemsFit` / `itemsLen` over lists of writes -/
 
@@ -277,4 +278,4 @@ theorem params_ext (a b : Params)
     (h20 : a.minAckDelay = b.minAckDelay) : a = b := by
   cases a; cases b; simp_all
 
-end Uquic.Proofs.Wire
+end Uquic.Proofs.WireMore
